@@ -213,6 +213,8 @@ def c14():
         roundtrip_events(s, rng)
         if i % 3 == 0:
             transform_events(s, rng)
+            v, raised = project_views(s.instance)      # the instance handed to the transformations, afterwards
+            s._ev({"a": "Views", "views": v, "raised": raised})
         nonflex = not s.instance.is_flexible
         if nonflex and s.instance.num_operations <= 6:
             for P in perm_tuples(b["inst"], rng, _n(chk, 24, 200)):
